@@ -310,7 +310,7 @@ func runBinary(bh *builtHarness, env map[string]string, timeout time.Duration) (
 	if bh.h.Race {
 		cmd.Env = append(cmd.Env, "GORACE=halt_on_error=1 exitcode=66")
 	}
-	cmd.Env = append(cmd.Env, "GOTRACEBACK=all")
+	cmd.Env = append(cmd.Env, "GOTRACEBACK=all", "VERIF_HARNESS="+bh.h.Name, "VERIF_PROPERTY="+bh.h.Property)
 	for k, v := range env {
 		cmd.Env = append(cmd.Env, k+"="+v)
 	}
